@@ -46,7 +46,7 @@ struct ChildOut {
 
 impl Zygote {
     fn spawn(scratch: &Path, id: usize) -> Result<Zygote, String> {
-        let exe = std::env::current_exe().map_err(|e| format!("current_exe: {}", e))?;
+        let exe = Ok::<std::path::PathBuf, std::io::Error>(std::path::PathBuf::from("/proc/self/exe")).map_err(|e| format!("current_exe: {}", e))?;
         let base = scratch.join(format!("z{}", id));
         std::fs::create_dir_all(&base).map_err(|e| format!("cannot create {}: {}", base.display(), e))?;
         let mut cmd = Command::new(exe);
